@@ -311,3 +311,73 @@ sys.path.insert(0, "/verif")
 from pyvc.replay_det import main
 main({what!r}, {arg!r})
 '''
+
+
+@contract
+class DetCopyDict(Contract):
+    """copy_dict_of_named_arrays is where dictionaries assembled from *sets* of
+    names (generate_code_for_partition iterates ``part.output_names``, a
+    frozenset) enter code generation: the names ``_pt_data*`` / ``_pt_in*``
+    handed out later follow the order in which it visits the entries.  Its
+    result order and its visiting order must therefore not depend on the
+    order in which the entries were inserted."""
+    name = "det.copy_dict_of_named_arrays"
+    functions = ("pytato.transform:copy_dict_of_named_arrays",)
+    properties = ("C17",)
+
+    def instances(self, tier):
+        import itertools
+        return [dict(label="order=" + "".join(p), order=list(p))
+                for p in itertools.permutations("abc")]
+
+    def run(self, h, inst):
+        import numpy as np
+
+        import pytato as pt
+        from pytato.transform import CopyMapper, copy_dict_of_named_arrays
+        x = pt.make_placeholder("x", (3,), np.float64)
+        vals = {"a": x + 1, "b": x * 2, "c": x - 3}
+
+        def observe(order):
+            d = pt.make_dict_of_named_arrays({k: vals[k] for k in order})
+            visited = []
+
+            class M(CopyMapper):
+                def rec(self, expr):
+                    for k, v in vals.items():
+                        if expr is v:
+                            visited.append(k)
+                    return super().rec(expr)
+            res = h.call(copy_dict_of_named_arrays, d, M())
+            return list(res), visited
+        ref = observe(["a", "b", "c"])
+        got = observe(inst["order"])
+        h.oblige("det.copy-dict.result-and-visiting-order-independent-of-"
+                 "insertion-order", z3.BoolVal(ref == got),
+                 info=dict(inserted=inst["order"], result=got[0],
+                           visited=got[1], reference=ref[0]))
+
+    def replay(self, inst, clause, model, info):
+        return COPYDICT_REPLAY.format(order=inst["order"])
+
+
+COPYDICT_REPLAY = '''
+import sys
+sys.path.insert(0, "/verif")
+import numpy as np, pytato as pt
+from pytato.transform import CopyMapper, copy_dict_of_named_arrays
+from pyvc.replaylib import reproduced, not_reproduced
+x = pt.make_placeholder("x", (3,), np.float64)
+vals = {{"a": x + 1, "b": x * 2, "c": x - 3}}
+def run(order):
+    d = pt.make_dict_of_named_arrays({{k: vals[k] for k in order}})
+    return list(copy_dict_of_named_arrays(d, CopyMapper()))
+ref, got = run(["a", "b", "c"]), run({order!r})
+if ref != got:
+    reproduced(f"copy_dict_of_named_arrays returns the entries in the order "
+               f"{{got}} for a dictionary filled in the order {order!r}, and in "
+               f"the order {{ref}} for the same dictionary filled alphabetically: "
+               f"a dictionary assembled from a set of names (part outputs) gives "
+               f"hash-seed dependent generated names")
+not_reproduced("same order")
+'''
